@@ -24,6 +24,15 @@ def std(pkg, qprop, tprop, fuzz=None, grid_shards_thorough=1, level="exploration
 
 
 PROPS = {
+    "C19": std("c19", 12000, 20000, extra=dict(
+        engine="rapid (guarded arguments, table snapshots, repeat/relocate) + concurrent rounds under the Go race detector",
+        race_exit_is_violation=True,
+        variants=[
+            dict(name="rel", tags="verif", fallback_untagged=True),
+            dict(name="race", tags="verif", race=True, fallback_untagged=True, env={"GORACE": "halt_on_error=1 exitcode=66"},
+                 quick=dict(prop=50, prop_shards=1, grid_shards=1, timeout=300),
+                 thorough=dict(prop=200, prop_shards=16, grid_shards=1, timeout=3600)),
+        ])),
     "C07": std("c07", 6000, 8000, fuzz=60, level="fault_enumeration", extra=dict(engine="rapid + per-frame fault-point enumeration + gofuzz")),
     "C06": std("c06", 3000, 20000, extra=dict(engine="rapid (stream model + hand-written wire encoder) + table")),
     "C20": std("c20", 5000, 50000, extra=dict(engine="rapid (oracle by construction via reflect) + grid")),
